@@ -4,6 +4,7 @@ package main
 // protocol obligations as path, pairing and shared-state rules.
 
 import (
+	"os"
 	"fmt"
 	"go/ast"
 	"go/token"
@@ -30,6 +31,7 @@ func runC04(c *Ctx, r *Report) {
 	c04MapOrder(c, r)
 	c04StateShadow(c, r)
 	c04HandleOwnership(c, r)
+	c04DoneEndsLoop(c, r)
 }
 
 // ---- R04.2 -------------------------------------------------------------------
@@ -1193,4 +1195,152 @@ func c04HandleOwnership(c *Ctx, r *Report) {
 		}
 	}
 	r.Floor("R04.12", "goroutines started by module functions", n, 10)
+}
+
+// ---- R04.13 ------------------------------------------------------------------
+// A producer that receives the downstream-done signal inside its loop stops
+// looping: the select case must not lead back to the select (an unlabeled
+// `break` there only leaves the select).
+func c04DoneEndsLoop(c *Ctx, r *Report) {
+	r.Rule("R04.13", "a received done signal ends the loop: when a select inside a loop has a case receiving from a bool (done) channel, that case either cannot come back to the select (return, labelled break) or changes state the loop can test (a variable or field assigned in the case) — an unlabeled break in an otherwise state-free case leaves only the select, and the producer would consume the one-shot signal and keep producing")
+	n := 0
+	for _, fn := range c.ModuleFunctions() {
+		if fn.Pkg == nil {
+			continue
+		}
+		pp := fn.Pkg.Pkg.Path()
+		if !(strings.HasSuffix(pp, "/pkg/transformers") || strings.HasSuffix(pp, "/pkg/input") || strings.HasSuffix(pp, "/pkg/stream") || strings.HasSuffix(pp, "/pkg/output")) {
+			continue
+		}
+		for _, b := range fn.Blocks {
+			for _, in := range b.Instrs {
+				sel, ok := in.(*ssa.Select)
+				if !ok {
+					continue
+				}
+				if !blockReachesSelf(b) {
+					continue
+				}
+				for k, st := range sel.States {
+					if st.Dir != types.RecvOnly || !chanElemIsBool(st.Chan.Type()) {
+						continue
+					}
+					cb := selectCaseBlock(sel, k)
+					if os.Getenv("MLRLINT_DEBUG") != "" {
+						fmt.Fprintf(os.Stderr, "DONECASE %s %s cb=%v\n", SSAName(fn), c.Rel(sel.Pos()), cb != nil)
+					}
+					if cb == nil {
+						continue
+					}
+					if os.Getenv("MLRLINT_DEBUG") != "" {
+						fmt.Fprintf(os.Stderr, "  reaches=%v changes=%v cbInstrs=%d\n", blockReaches(cb, b), caseChangesLoopState(cb, b), len(cb.Instrs))
+					}
+					n++
+					key := fmt.Sprintf("%s: done case #%d", SSAName(fn), n)
+					if why, ok := doneLoopOK[SSAName(fn)]; ok {
+						r.OK("R04.13", key, c.Rel(sel.Pos()), "frozen exception: "+why)
+						continue
+					}
+					r.Check(!blockReaches(cb, b) || caseChangesLoopState(cb, b), "R04.13", key, c.Rel(sel.Pos()), "the case leaves the loop or changes what the loop tests",
+						fmt.Sprintf("%s receives the done signal in a select inside a loop and can come back to that select afterwards: the signal is consumed (it is sent once) and the loop keeps producing — with a distant stop value the chain does not terminate", SSAName(fn)))
+				}
+			}
+		}
+	}
+	r.Floor("R04.13", "done cases inside loops", n, 2)
+}
+
+var doneLoopOK = map[string]string{}
+
+func blockReachesSelf(b *ssa.BasicBlock) bool {
+	for _, s := range b.Succs {
+		if blockReaches(s, b) {
+			return true
+		}
+	}
+	return false
+}
+
+// selectCaseBlock: the block executed when select chose state k.
+func selectCaseBlock(sel *ssa.Select, k int) *ssa.BasicBlock {
+	var idx ssa.Value
+	for _, ref := range *sel.Referrers() {
+		if ex, ok := ref.(*ssa.Extract); ok && ex.Index == 0 {
+			idx = ex
+		}
+	}
+	if idx == nil {
+		return nil
+	}
+	for _, ref := range *idx.Referrers() {
+		bo, ok := ref.(*ssa.BinOp)
+		if !ok || bo.Op != token.EQL {
+			continue
+		}
+		if v, ok := constInt(bo.Y); !ok || int(v) != k {
+			continue
+		}
+		for _, r2 := range *bo.Referrers() {
+			if iff, ok := r2.(*ssa.If); ok {
+				return iff.Block().Succs[0]
+			}
+		}
+	}
+	return nil
+}
+
+// caseChangesLoopState: inside the region that only the case reaches (blocks
+// dominated by its first block) a field or cell is stored, or where that
+// region rejoins the common code some variable gets a value it would not get
+// on the other ways in (a phi edge that differs).
+func caseChangesLoopState(cb, selBlock *ssa.BasicBlock) bool {
+	region := map[*ssa.BasicBlock]bool{}
+	var collect func(b *ssa.BasicBlock)
+	collect = func(b *ssa.BasicBlock) {
+		if region[b] || !cb.Dominates(b) {
+			return
+		}
+		region[b] = true
+		for _, s := range b.Succs {
+			collect(s)
+		}
+	}
+	collect(cb)
+	for b := range region {
+		for _, in := range b.Instrs {
+			if st, ok := in.(*ssa.Store); ok {
+				switch st.Addr.(type) {
+				case *ssa.Alloc, *ssa.FieldAddr, *ssa.IndexAddr, *ssa.Global:
+					return true
+				}
+			}
+		}
+		for _, s := range b.Succs {
+			if region[s] {
+				continue
+			}
+			// leaving the case's region: compare phi edges at the join
+			pi := -1
+			for i, p := range s.Preds {
+				if p == b {
+					pi = i
+				}
+			}
+			for _, in := range s.Instrs {
+				phi, ok := in.(*ssa.Phi)
+				if !ok {
+					break
+				}
+				if pi >= 0 {
+					for i, e := range phi.Edges {
+						// compare with the other ways out of the same select only (not with the loop's entry edge)
+						if i != pi && !region[s.Preds[i]] && selBlock.Dominates(s.Preds[i]) && e != phi.Edges[pi] {
+							return true
+						}
+					}
+				}
+			}
+		}
+	}
+	return false
 }
